@@ -7,7 +7,7 @@ ASSUMPTIONS = ["patterns: corpus P1 only; haystacks: all byte strings of the lis
 def items(tier):
     out = []
     maxL = 3 if tier == "quick" else 4
-    for p, strat, tags in corpus.entries(tier):
+    for idx, (p, strat, tags) in enumerate(corpus.entries(tier)):
         alpha = "utf8" if corpus.uses_anychar(p) else ""
         apis = ["Match"]
         for L in corpus.lengths(tags, tier, maxL):
@@ -15,6 +15,10 @@ def items(tier):
                 out.append({"id": "C01|%s|%s|L%d|%s" % (p, api, L, alpha or "full"), "Harness": "C01", "Pattern": p, "API": api, "L": L, "Alpha": alpha,
                             "strategy": strat, "reach": ["match", "nomatch"] if L == maxL else None})
         out.append({"id": "C01|%s|MatchString|L2|%s" % (p, alpha or "full"), "Harness": "C01", "Pattern": p, "API": "MatchString", "L": 2, "Alpha": alpha, "strategy": strat})
+        # reader and package-level entry points: every 5th entry in the quick tier, all in the thorough tier
+        if tier != "quick" or idx % 5 == 0:
+            for api in ["MatchReader", "PkgMatch", "PkgMatchString"]:
+                out.append({"id": "C01|%s|%s|L2|%s" % (p, api, alpha or "full"), "Harness": "C01", "Pattern": p, "API": api, "L": 2, "Alpha": alpha, "strategy": strat})
         for pre, post in corpus.windows(p):
             out.append({"id": "C01|%s|Match|L%d|%s|w%s+%s" % (p, maxL, alpha or "full", pre.encode().hex(), post.encode().hex()), "Harness": "C01", "Pattern": p, "API": "Match", "L": maxL, "Alpha": alpha, "Pre": pre, "Post": post, "strategy": strat})
     return out
